@@ -26,7 +26,7 @@ def run(repo, chk, tier):
         check_kernels(repo, chk, tier)
         check_models(repo, chk, tier)
     except AnalysisError as e:
-        if not chk.violations:
+        if not chk.new_violations():
             raise
         # a table violation already explains why a kernel degenerates (e.g. a zero polynomial)
         chk.info("kernel clauses not completed after the table violation(s): %s" % e)
